@@ -157,8 +157,56 @@ class _FuncInfo:
                         self.bound_vars.append(n.args[0].id)
         self.bound_vars = self.bound_vars[:2]
         self.flags = self.flags + ["@" + v for v in self.bound_vars]
+        # pseudo flags "#d": local d is an empty dict.  d qualifies when every binding is `d = {}` / `dict()`, every
+        # other use is d[k] = v, d[k], d.get(...), `k in d`, and no handler of the function can catch KeyError:
+        # then `d[<constant>]` on an empty d ends the path with KeyError.
+        self.empty_dicts = []
+        catches_key = any(_handler_catches(h, "KeyError") or _handler_catches(h, "LookupError") for n in f.own_nodes() if isinstance(n, ast.Try) for h in n.handlers)
+        if not catches_key:
+            uses = {}
+            for n in f.own_nodes():
+                if isinstance(n, ast.Name) and n.id in f.locals and n.id not in f.params:
+                    uses.setdefault(n.id, []).append(n)
+            par = {}
+            for n in f.own_nodes():
+                for c in ast.iter_child_nodes(n):
+                    par[id(c)] = n
+            for name, nodes in sorted(uses.items()):
+                okd, has_const_load, has_init = True, False, False
+                for n in nodes:
+                    p_ = par.get(id(n))
+                    if isinstance(n.ctx, ast.Store):
+                        if isinstance(p_, ast.Assign) and len(p_.targets) == 1 and p_.targets[0] is n and ((isinstance(p_.value, ast.Dict) and not p_.value.keys) or (isinstance(p_.value, ast.Call) and isinstance(p_.value.func, ast.Name) and p_.value.func.id == "dict" and not p_.value.args and not p_.value.keywords)):
+                            has_init = True
+                        else:
+                            okd = False
+                    elif isinstance(p_, ast.Subscript) and p_.value is n:
+                        if isinstance(p_.ctx, ast.Load) and isinstance(p_.slice, ast.Constant):
+                            has_const_load = True
+                        elif isinstance(p_.ctx, ast.Del):
+                            okd = False
+                    elif isinstance(p_, ast.Attribute) and p_.value is n and p_.attr == "get":
+                        pass
+                    elif isinstance(p_, ast.Compare) and n in p_.comparators:
+                        pass
+                    else:
+                        okd = False
+                if okd and has_init and has_const_load:
+                    self.empty_dicts.append(name)
+        self.empty_dicts = self.empty_dicts[:2]
+        self.flags = self.flags + ["#" + v for v in self.empty_dicts]
         self.index = {k: i for i, k in enumerate(self.flags)}
         self.init = tuple(False if k.startswith("@") else None for k in self.flags)
+
+    def keyerror_dicts(self, node):
+        """Names d of tracked empty-dict flags read as d[<constant>] inside the expression/statement `node`."""
+        out = []
+        if not self.empty_dicts:
+            return out
+        for x in ast.walk(node):
+            if isinstance(x, ast.Subscript) and isinstance(x.ctx, ast.Load) and isinstance(x.value, ast.Name) and x.value.id in self.empty_dicts and isinstance(x.slice, ast.Constant):
+                out.append(x.value.id)
+        return out
 
 
 class Consumption:
@@ -436,6 +484,16 @@ class Consumption:
                     self.record_expr(f, ch, st.shifted(c), lits, rec)
                     c = _addi(c, self.expr_cost(f, ch, lits))
             st = st.shifted(c)
+            if fi.empty_dicts:
+                for d in fi.keyerror_dicts(s):
+                    # d[<constant>] on an empty dict raises KeyError: those paths end here
+                    st = self.refine(fi, st, ast.Name(id="#" + d, ctx=ast.Load()), False)
+                if T is ast.Assign:
+                    for t in s.targets:
+                        if isinstance(t, ast.Name) and ("#" + t.id) in fi.index:
+                            st = self.assign_flag(fi, st, "#" + t.id, True)
+                        elif isinstance(t, ast.Subscript) and isinstance(t.value, ast.Name) and ("#" + t.value.id) in fi.index:
+                            st = self.assign_flag(fi, st, "#" + t.value.id, False)
             if T is ast.Assign and len(s.targets) == 1 and isinstance(s.targets[0], ast.Name) and s.targets[0].id in fi.index and isinstance(s.value, ast.Constant):
                 st = self.assign_flag(fi, st, s.targets[0].id, bool(s.value.value))
             if fi.bound_vars:
@@ -453,6 +511,8 @@ class Consumption:
         if T is ast.If:
             self.record_expr(f, s.test, st, lits, rec)
             st = st.shifted(self.expr_cost(f, s.test, lits))
+            for d in fi.keyerror_dicts(s.test):
+                st = self.refine(fi, st, ast.Name(id="#" + d, ctx=ast.Load()), False)
             a = self.walk(f, s.body, self.refine(fi, st, s.test, True), pv, lits, rec)
             b = self.walk(f, s.orelse, self.refine(fi, st, s.test, False), pv, lits, rec)
             fa, fb = a.pop("fall", State()), b.pop("fall", State())
@@ -615,10 +675,6 @@ def _handler_catches(h, cls):
 
 # frozen exception table: (function qualname, normalised loop test) -> reason
 TERMINATION_EXCEPTIONS = {
-    ("iodata.formats.molden._load_helper_coeffs", "True"): (
-        "the zero-net-consumption cycle (header line pushed back, both inner for-loops ending at once) leaves "
-        "`info` empty, so info['occup'] raises KeyError, which the API funnel converts to LoadError"
-    ),
     ("iodata.formats.cp2klog._read_cp2k_contracted_obasis", "True"): (
         "the zero-net-consumption cycle needs the inner for-loop to run zero times (end of file right after a "
         "'Functions' header); then coeffs is an empty 1-D array and coeffs.shape[1] raises IndexError (funnelled)"
